@@ -173,7 +173,7 @@ def run_c06(pid, spec, tier, seed, replay=None):
         return res
     binary = orch.build_harness()
     d = orch.fresh_dir("run-%s-%s-core" % (pid, tier))
-    viols, cov, states, trans = flow.run(tier, binary, d, stress=600 if tier == "quick" else 10000, seed=seed)
+    viols, cov, states, trans = flow.run(tier, binary, d, stress=150 if tier == "quick" else 2500, seed=seed)
     res["violations"] += viols
     res["coverage"].update(cov)
     res["coverage"]["states"] += states
@@ -210,7 +210,7 @@ def run_c05(pid, spec, tier, seed, replay=None):
         return res
     binary = orch.build_harness()
     d = orch.fresh_dir("run-%s-%s-core" % (pid, tier))
-    viols, cov, states, trans = flow.run(tier, binary, d, stress=600 if tier == "quick" else 10000, seed=seed)
+    viols, cov, states, trans = flow.run(tier, binary, d, stress=150 if tier == "quick" else 2500, seed=seed)
     res["violations"] += viols
     res["coverage"].update(cov)
     res["coverage"]["states"] += states
